@@ -220,6 +220,9 @@ func (s *Store) Requests() int {
 	return s.nreq
 }
 
+// NextConnID returns the id given to the most recently accepted connection.
+func (s *Store) NextConnID() int { return int(atomic.LoadInt64(&s.nextConn)) }
+
 func (s *Store) Open() int64 { return atomic.LoadInt64(&s.Accepted) - atomic.LoadInt64(&s.Closed) }
 
 // ---- serving ----
